@@ -318,6 +318,9 @@ func runC08(c *eng.Ctx) {
 		}
 	}
 	c.Floor(5)
+	c.Rule("R16.8", "K6")
+	ruleStreamConfigPlumbing(c, "CompactEnabled", "CompactMaxGoroutines")
+	c.Floor(6)
 }
 
 func isScanResult(v ssa.Value) bool {
